@@ -69,7 +69,8 @@ CHECKS.update({
         "for 20..61-bit moduli and N up to 256 (quick) / 4096 (thorough) the images of c*X^j are checked through certified power chains.", ref="DESIGN.md 4/C09", note=ARITH_NOTE),
  "C16": dict(cat="model_checking", tech="TLC explores spec/BlakeRng.tla (stream position under fill_bytes/next_u32/next_u64 with alignment); every (position, call) transition replayed on the real BlakeRNG against an independent BLAKE3-XOF reference; histories/samples validated by TLC (spec/Trace_Rng.tla)",
    text="All (position <= 8300 quick / 12400 thorough, call) pairs incl. reads straddling one to three buffer refills, for 8 seeds, byte-exact against the documented stream; histories of 60/400 mixed encryptions and key generations: "
-        "all masks and stored seeds pairwise distinct, equal explicit generator states give equal masks and leave the generator in the same state; 32-byte windows of 64 KiB / 1 MiB distinct; ternary/error/uniform samples for 1..6 primes well-formed.",
+        "all masks and stored seeds pairwise distinct, equal explicit generator states give equal masks and leave the generator in the same state; 32-byte windows of 64 KiB / 1 MiB distinct; ternary/error/uniform samples for 1..6 primes well-formed; "
+        "every component of generated public / relinearization / Galois / key-switching keys is an RLWE sample c0 + c1*s = payload + e with |e| <= 21 in every key-level prime (spec/Keys.tla, BigNat).",
    ref="DESIGN.md 4/C16", note="Trusted: TLC, spec/BlakeRng.tla, the blake3 crate used for the reference stream, 96-bit digests for comparing masks. Distribution checks are sanity bounds only."),
 })
 CHECKS.update({
@@ -80,7 +81,7 @@ CHECKS.update({
  "C18": dict(cat="model_checking", tech="TLC enumerates delivery orders and (premature) finish attempts over spec/Multiparty.tla (Agreement, NoEarlyFinish); every order replayed with real Participants for each protocol",
    text="All delivery orders of one broadcast round for 2 and 3 parties (all-to-all and star topology), sampled for 4-6 parties, with at most one premature finish, replayed for public-key generation, secret-key revelation, "
         "two-round relinearization keys, collective decryption, key switch, public-key switch, cipher->shares and shares->cipher over BFV, BGV and CKKS: premature finish refused, outputs byte-identical across parties, "
-        "collective keys usable under the sum of the secret keys, plaintext preserved.", ref="DESIGN.md 4/C18",
+        "collective keys usable under the sum of the secret keys and the collective public key an exact RLWE sample under that sum (spec/Keys.tla), plaintext preserved.", ref="DESIGN.md 4/C18",
    note="Trusted: TLC, spec/Multiparty.tla (abstract additive shares), harness/src/c18.rs. Only the round structure is modelled; ring identities are observed through ordinary encryption/decryption under the summed key."),
 })
 CHECKS.update({
